@@ -228,15 +228,18 @@ def run(pid, repo, verbose=True, jobs=16):
         if verbose and r['status'] != 'ok':
             print(f"selftest {pid} {r['id']}: {r['status']}: {r['detail']}")
     nb = sum(1 for v in vs if v['kind'] != 'benign')
-    ns = sum(1 for v in vs if v.get('patch'))
+    ns = sum(1 for v in vs if v.get('patch') and v['kind'] != 'benign')
+    nr = sum(1 for v in vs if v.get('patch') and v['kind'] == 'benign')
     print(f'selftest {pid}: {len(vs)} variants ({nb} breaking of which '
-          f'{ns} seeded by sub-agents, {len(vs) - nb} benign): '
+          f'{ns} seeded by sub-agents, {len(vs) - nb} benign of which '
+          f'{nr} refactorings by sub-agents): '
           f'{n["ok"]} ok, {n["fail"]} failed, {n["stale"]} stale, '
           f'{n["miss"]} documented miss(es)')
     summary = dict(
         interpreter_snippets=n_snip,
         interpreter_disagreements=len(disagree),
         variants=len(vs), breaking=nb, seeded=ns, benign=len(vs) - nb,
+        refactorings_by_sub_agents=nr,
         ok=n['ok'],
         failed=n['fail'], stale=n['stale'], documented_misses=[
             r['id'] for r in results if r['status'] == 'miss'],
